@@ -1,8 +1,8 @@
 import KonstVerif.Model.Basic
 /-
-  Generic "double-ended by-value iterator refines a deque" development
-  (the generic part of notes/prototypes/Deque.lean, unchanged: structure DE, runImpl, runDeque,
-  refine; `Dir` is `Konst.Dir` from Model/Basic).  Shared by C07, C08, C09.
+  Generic "a by-value double-ended iterator refines a deque" development (DESIGN.md A.5), shared by
+  C07, C08 and C09.  The part between the namespace lines is textually the prototype
+  `notes/prototypes/Deque.lean` (with `Dir` taken from `Konst`).
 -/
 namespace Konst.Deque
 open Konst
